@@ -1018,6 +1018,53 @@ fn stream_families(thorough: bool) -> Vec<SFamily> {
             }
         }),
     });
+    // numeric tokens inside text protocols: every place that parses a number out of a header or a start line
+    let num: Vec<&'static str> = vec!["0", "1", "0.5", "1.0", "1.000", "0.0001", "NaN", "nan", "-nan", "inf", "-inf", "infinity", "1e39", "1e-50", "-1", "+1", "-0", "", ".", " ", "0x10", "99999999999999999999", "1_0", "\u{663}", "1,5", "q"];
+    let n = num.len();
+    let nn = num.clone();
+    v.push(SFamily {
+        name: "accept-language-q-values".into(),
+        // two-entry lists over all pairs (HTTP/1 and HTTP/2), three-entry lists over the first 10 tokens
+        len: n * n * 2 + 1000,
+        gen: Box::new(move |i| {
+            let value = if i < n * n * 2 {
+                let j = i / 2;
+                format!("de;q={},en;q={}", nn[j / n], nn[j % n])
+            } else {
+                let j = i - n * n * 2;
+                format!("fr;q={}, de ; q={} ,en;q={}", nn[6 + j / 100 % 10], nn[6 + j / 10 % 10], nn[6 + j % 10])
+            };
+            if i % 2 == 0 || i >= n * n * 2 {
+                format!("GET / HTTP/1.1\r\nHost: h\r\nAccept-Language: {value}\r\nUser-Agent: x\r\n\r\n").into_bytes()
+            } else {
+                c07::h2_request(&[("accept-language", value.as_str(), Rep::LitNoIdx), ("user-agent", "x", Rep::LitNoIdx)], &[], &[])
+            }
+        }),
+    });
+    let nn = num.clone();
+    v.push(SFamily {
+        name: "numeric-tokens-in-start-lines-and-lengths".into(),
+        len: (n + 8) * 6,
+        gen: Box::new(move |i| {
+            let extra = ["200", "999", "1000", "65535", "65536", "-200", "2 00", "20"];
+            let t = if i / 6 < n { nn[i / 6] } else { extra[i / 6 - n] };
+            match i % 6 {
+                0 => format!("HTTP/1.1 {t} OK\r\nServer: s\r\n\r\n").into_bytes(),
+                1 => format!("HTTP/1.1 200 OK\r\nServer: s\r\nContent-Length: {t}\r\n\r\nbody").into_bytes(),
+                2 => format!("POST / HTTP/1.1\r\nHost: h\r\nContent-Length: {t}\r\n\r\nbody").into_bytes(),
+                3 => format!("GET / HTTP/{t}\r\nHost: h\r\n\r\n").into_bytes(),
+                4 => format!("HTTP/{t} 200 OK\r\nServer: s\r\n\r\n").into_bytes(),
+                _ => {
+                    let mut d = h2::settings(&[]);
+                    let mut e = HpackEnc::default();
+                    let mut b = e.field(":status", t, Rep::LitNoIdxIndexedName, false, false);
+                    b.extend(e.field("content-length", t, Rep::LitNoIdx, false, false));
+                    d.extend(h2::headers_frames(1, &b, &Framing::default()));
+                    d
+                }
+            }
+        }),
+    });
     for (name, base) in [("clienthello-record", p.hello.clone()), ("http2-request-stream", p.h2req.clone()), ("http2-response-stream", p.h2resp.clone()), ("http1-request", p.h1req.clone()), ("http1-response", p.h1resp.clone())] {
         v.push(mutations_of(name, base));
     }
